@@ -483,8 +483,30 @@ func (cf *chanFn) selectIssues(sel *ast.SelectStmt, made map[string]bool) []side
 	var conds []string
 	okForm := true
 	var collect func(e ast.Expr)
+	// (De Morgan: !(a == nil && b == nil) is a != nil || b != nil)
+	var collectNeg func(e ast.Expr)
+	collectNeg = func(e ast.Expr) {
+		switch x := unparen(e).(type) {
+		case *ast.BinaryExpr:
+			if x.Op == token.LAND {
+				collectNeg(x.X)
+				collectNeg(x.Y)
+				return
+			}
+			if x.Op == token.EQL && isNilLit(x.Y) {
+				conds = append(conds, canon(x.X))
+				return
+			}
+		}
+		okForm = false
+	}
 	collect = func(e ast.Expr) {
 		switch x := unparen(e).(type) {
+		case *ast.UnaryExpr:
+			if x.Op == token.NOT {
+				collectNeg(x.X)
+				return
+			}
 		case *ast.BinaryExpr:
 			if x.Op == token.LOR {
 				collect(x.X)
@@ -782,6 +804,35 @@ func doIssues(rs *Resid, fn *ast.FuncDecl) []sideIssue {
 				bound, _ = strconv.Atoi(bl.Value)
 			}
 		}
+		// counting down: for k := n; k > 0; k--
+		if be, ok := loop.Cond.(*ast.BinaryExpr); ok && be.Op == token.GTR && canon(be.Y) == "0" {
+			if init, ok := loop.Init.(*ast.AssignStmt); ok && len(init.Lhs) == 1 && len(init.Rhs) == 1 && canon(init.Lhs[0]) == canon(be.X) {
+				if post, ok := loop.Post.(*ast.IncDecStmt); ok && post.Tok == token.DEC && canon(post.X) == canon(be.X) {
+					if bl, ok := init.Rhs[0].(*ast.BasicLit); ok {
+						// the counter must not be touched in the body
+						touched := false
+						ast.Inspect(loop.Body, func(m ast.Node) bool {
+							switch y := m.(type) {
+							case *ast.AssignStmt:
+								for _, l := range y.Lhs {
+									if canon(l) == canon(be.X) {
+										touched = true
+									}
+								}
+							case *ast.IncDecStmt:
+								if canon(y.X) == canon(be.X) {
+									touched = true
+								}
+							}
+							return true
+						})
+						if !touched {
+							bound, _ = strconv.Atoi(bl.Value)
+						}
+					}
+				}
+			}
+		}
 	}
 	nsend := 0
 	for _, e := range evs {
@@ -892,6 +943,9 @@ func doIssues(rs *Resid, fn *ast.FuncDecl) []sideIssue {
 		okFirst := hasGuard(gs, true, func(e ast.Expr) bool {
 			be, ok := e.(*ast.BinaryExpr)
 			return ok && be.Op == token.EQL && isNilLit(be.Y) && canon(be.X) == errName
+		}) || hasGuard(gs, false, func(e ast.Expr) bool {
+			be, ok := e.(*ast.BinaryExpr)
+			return ok && be.Op == token.NEQ && isNilLit(be.Y) && canon(be.X) == errName
 		})
 		if !okNonNil || !okFirst {
 			iss(as, "error-selection", "the returned error is overwritten without the guards `received != nil` and `%s == nil`: a later nil completion can erase an earlier failure, so Do may report success although a function failed", errName)
